@@ -347,6 +347,22 @@ func Lock(site string, try func() bool, lock func()) {
 	}
 }
 
+// ---- package-level channels ----
+
+var bubbleInits []func()
+
+// RegisterBubbleInit is called from init functions simgen adds: fn re-evaluates the
+// initialiser of a package-level variable that holds a channel.
+func RegisterBubbleInit(site string, fn func()) { bubbleInits = append(bubbleInits, fn) }
+
+// RunBubbleInits is called by an engine once, inside its bubble, before any code under
+// test runs: the package-level channels are made again, now as channels of the bubble.
+func RunBubbleInits() {
+	for _, fn := range bubbleInits {
+		fn()
+	}
+}
+
 // ---- sync.Cond, sync.Locker and sync.RWMutex under the simulator ----
 //
 // sync.Cond.Wait re-acquires its Locker with a plain Lock after the wake-up; if the holder is
@@ -921,3 +937,41 @@ func Select(site string, block func() int, tries ...func() bool) int {
 	}
 	return block()
 }
+
+// ReflectSelect is what reflect.Select becomes: which of several ready cases is taken is
+// the runtime's private coin there too. The cases are tried once, non-blocking, in an order
+// derived from the seed, the actor and a per-actor counter; if none is ready and there is
+// no default case the call blocks in the real reflect.Select.
+func ReflectSelect(site string, cases []reflect.SelectCase) (int, reflect.Value, bool) {
+	s := cur.Load()
+	if s == nil {
+		return reflect.Select(cases)
+	}
+	g := goID()
+	s.mu.Lock()
+	a := s.byGID[g]
+	name, ctr := "?", uint64(0)
+	if a != nil {
+		name = a.name
+		a.selects++
+		ctr = a.selects
+	}
+	s.mu.Unlock()
+	r := RNG{s: mix64(s.opt.Seed) ^ HashString("select:"+name+"@"+site) ^ mix64(ctr)}
+	def := -1
+	for _, i := range r.Perm(len(cases)) {
+		c := cases[i]
+		if c.Dir == reflect.SelectDefault {
+			def = i
+			continue
+		}
+		if chosen, v, ok := reflect.Select([]reflect.SelectCase{c, {Dir: reflect.SelectDefault}}); chosen == 0 {
+			return i, v, ok
+		}
+	}
+	if def >= 0 {
+		return def, reflect.Value{}, false
+	}
+	return reflect.Select(cases)
+}
+
